@@ -51,12 +51,42 @@ def fmt_time(epoch):
     return (datetime.datetime(1970, 1, 1) + datetime.timedelta(seconds=int(epoch))).strftime("%Y-%m-%d %H:%M:%S")
 
 
-def write_csv(path, header, rows, fmt=fmt_time):
+FORCE_DIALECT = [None]  # set while replaying a recorded case
+DIALECT_RNG = [None]    # set by the Context: a PRNG (derived from the seed) that picks the text dialect of each dataset
+
+
+def pick_dialect():
+    """How the same data may legitimately be spelled in a text file: a byte-order mark (spreadsheet "CSV UTF-8"),
+    CRLF line ends, hours / months / days without the leading zero (cell format yyyy-m-d h:mm:ss), more than one
+    blank between date and time.  All of them are read identically by the loader."""
+    if FORCE_DIALECT[0] is not None:
+        d = FORCE_DIALECT[0]
+        return {"bom": tuple(d["bom"]), "crlf": d["crlf"], "time": d["time"]}
+    r = DIALECT_RNG[0]
+    if r is None or r.random() < 0.7:
+        return {"bom": (False, False, False), "crlf": False, "time": "padded"}
+    return {"bom": tuple(r.random() < 0.4 for _ in range(3)), "crlf": r.random() < 0.4,
+            "time": r.choice(["padded", "padded", "hour", "all", "blanks"])}
+
+
+def restyle(text, style):
+    import re
+    if style == "hour":
+        return re.sub(r" 0(\d):", r" \1:", text)
+    if style == "all":
+        text = re.sub(r" 0(\d):", r" \1:", text)
+        return re.sub(r"-0(\d)", r"-\1", text)
+    if style == "blanks":
+        return text.replace(" ", "  ", 1)
+    return text
+
+
+def write_csv(path, header, rows, fmt=fmt_time, bom=False, crlf=False, time_style="padded"):
     """rows: list of (epoch_utc, value_text)."""
-    with open(path, "w") as fh:
+    with open(path, "w", encoding="utf-8-sig" if bom else "utf-8", newline="\r\n" if crlf else "\n") as fh:
         fh.write("datetime,%s\n" % header)
         for t, v in rows:
-            fh.write("%s,%s\n" % (fmt(t), v))
+            fh.write("%s,%s\n" % (restyle(fmt(t), time_style), v))
 
 
 def write_dataset(ctx_dir, name, rain, et, level, fmt=fmt_time):
@@ -66,10 +96,15 @@ def write_dataset(ctx_dir, name, rain, et, level, fmt=fmt_time):
     p = os.path.join(ctx_dir, name + "_p.txt")
     e = os.path.join(ctx_dir, name + "_e.txt")
     z = os.path.join(ctx_dir, name + "_z.txt")
-    write_csv(p, "precipitation rate (mm/h)", [(t, txt(v)) for t, v in rain], fmt)
-    write_csv(e, "evapotranspiration (mm/h)", [(t, txt(v)) for t, v in et], fmt)
-    write_csv(z, "wtd (mm)", [(t, txt(v)) for t, v in level], fmt)
+    d = pick_dialect()
+    LAST_DIALECT[0] = d
+    write_csv(p, "precipitation rate (mm/h)", [(t, txt(v)) for t, v in rain], fmt, d["bom"][0], d["crlf"], d["time"])
+    write_csv(e, "evapotranspiration (mm/h)", [(t, txt(v)) for t, v in et], fmt, d["bom"][1], d["crlf"], d["time"])
+    write_csv(z, "wtd (mm)", [(t, txt(v)) for t, v in level], fmt, d["bom"][2], d["crlf"], d["time"])
     return p, e, z
+
+
+LAST_DIALECT = [None]
 
 
 VERBOSITY = [0]     # set by the streams: number of -v flags to add to every command (with a scratch --logfile)
